@@ -35,12 +35,14 @@ var labels = []string{"0", "1"}
 
 type obj struct{ key, ver, label int }
 
-func (o obj) id() int { return (o.key*len(vers)+o.ver)*2 + o.label }
+func (o obj) id() int       { return (o.key*len(vers)+o.ver)*2 + o.label }
 func (o obj) numeric() bool { return o.ver < nNumeric }
 func (o obj) String() string {
 	return fmt.Sprintf("%s@%s{l=%s}", keys[o.key], vers[o.ver], labels[o.label])
 }
-func (o obj) real() metav1.Object { return hx.Pod("ns", keys[o.key], vers[o.ver], "l="+labels[o.label]) }
+func (o obj) real() metav1.Object {
+	return hx.Pod("ns", keys[o.key], vers[o.ver], "l="+labels[o.label])
+}
 
 func allObjs() []obj {
 	var out []obj
@@ -99,8 +101,8 @@ func (s state) get(k int) (obj, bool) {
 	x := int(s.e[k] - 1)
 	return obj{k, x / 2, x % 2}, true
 }
-func (s *state) set(o obj)  { s.e[o.key] = uint8(1 + o.ver*2 + o.label) }
-func (s *state) del(k int)  { s.e[k] = 0 }
+func (s *state) set(o obj) { s.e[o.key] = uint8(1 + o.ver*2 + o.label) }
+func (s *state) del(k int) { s.e[k] = 0 }
 func (s state) content() string {
 	var ss []string
 	for k := range keys {
@@ -353,15 +355,15 @@ func (g guardFilter) Accept(o metav1.Object) bool {
 }
 
 type inst struct {
-	prop     string
-	n        node
-	alpha    []op
-	msgs     []string
-	nilCrash string
-	checked  int64
+	prop        string
+	n           node
+	alpha       []op
+	msgs        []string
+	nilCrash    string
+	checked     int64
 	unspecified int64
-	finished bool
-	curOp    string
+	finished    bool
+	curOp       string
 }
 
 // fail records a violation; class identifies the kind of failing input (it becomes the finding signature).
@@ -729,15 +731,17 @@ func Property(id string) runner.Property {
 				n := n
 				out = append(out, runner.Sc{
 					Scenario: explore.Scenario{
-						Name:  fmt.Sprintf("%s/state%03d/%s", strings.ToLower(id), i, strings.ReplaceAll(n.s.String(), " ", "_")),
-						Mode:  "D0",
-						Cfg:   vs.Config{MaxSteps: 50000000},
+						Name: fmt.Sprintf("%s/state%03d/%s", strings.ToLower(id), i, strings.ReplaceAll(n.s.String(), " ", "_")),
+						Mode: "D0",
+						Cfg:  vs.Config{MaxSteps: 50000000},
 						New: func() explore.Instance {
 							in := &inst{prop: id, n: n, alpha: alpha}
 							return explore.Instance{
 								Run: in.run, Check: in.check,
-								Outcome:  func() string { return fmt.Sprintf("%v checked=%d", n.s, in.checked) },
-								Counters: func() map[string]int64 { return map[string]int64{"mc_states": 1, "mc_transitions": in.checked, "content_unspecified_same_version_conflict": in.unspecified} },
+								Outcome: func() string { return fmt.Sprintf("%v checked=%d", n.s, in.checked) },
+								Counters: func() map[string]int64 {
+									return map[string]int64{"mc_states": 1, "mc_transitions": in.checked, "content_unspecified_same_version_conflict": in.unspecified}
+								},
 							}
 						},
 					},
